@@ -69,6 +69,10 @@ CHECKS = {
             "Snapshot fix-point monitor: a real gateway (port stack on a fake serial port under one virtual clock, incl. two frames in one serial read; file stack) is fed histories derived from the recorded logs (delete/duplicate/reorder/splice/mutate); at seeded prefixes and at the end a snapshot is taken with include_expired on/off. Content monitor: every snapshot line is accepted by Packet.from_dict + Message(), is no RQ, no W other than 0404 and (unless asked for) not expired on the gateway's own clock. Fix-point monitor: a fresh Gateway built the way a restarting application does it (Gateway(**schema) + start(cached_packets)) must give back the identical packet dict and, eavesdropping off, the identical schema. Idempotence monitor: restoring the same snapshot again into the fresh gateway and into the original changes neither.",
             "Timestamps are unique and increasing (a real receiver stamps on arrival); the schema clause is judged on the port stack with eavesdropping off (a fresh file gateway has no clock of its own); each stick's own start-up signature packet is excluded; one recorded finding (313F kept although expired, deliberate).",
             "differential fix-point / idempotence monitor on snapshot -> fresh gateway -> snapshot, plus per-line content monitor", "§3 C16"),
+    "C18": ("fault_enumeration",
+            "Transfer-outcome and leftover-state monitors: a real port Gateway on a virtual clock (incl. the 3-minute lock timeout) against a simulated controller with versioned schedules (0006 counter, 0404 fragments from the harness' reference encoder). Episodes = get / get(force_io) / set on 1-3 zones, alone or concurrent, under a fault plan that addresses the version query and each fragment exchange (request, echo or reply lost once or on every retransmission; reply delayed 0.3-8 s; duplicated), controller-side schedule changes after any exchange (same / different fragment count), replies to another requester overheard, caller timeouts 0.05-20 s; a systematic single-fault walk first, then seeded combinations. Judged: every call ends within its bound; a returned schedule is a version the controller held during the call (never a mixture); a successful set leaves the requested schedule on the controller; afterwards the transfer lock is free and clean-link transfers for the same and another zone deliver the controller's schedule.",
+            "Simulated controller written from the recorded exchanges; for calls without force_io a version up to 3 minutes old (the documented cache validity of the change counter) is acceptable; a schedule changed at the controller between a write's last ack and its version query is not distinguishable by any writer and is not generated.",
+            "client-boundary history + versioned reference model + leftover-state/aftermath probes under step-addressed fault injection", "§3 C18"),
     "C19": ("exploration",
             "Reference-model monitor: a simulated controller log (unique increasing timestamps, up to 64 deep) drives the real FaultLog inside a real Evohome of a real Gateway through the dispatcher with real I|0418 / RP|0418 packets built as text; after every step the public views are compared with the model (strictly newest-first, no entry at two positions, no invented/altered entry, views never raise; equality with the controller's log after an uninterrupted read-through; push-down by one on an unsolicited announcement). A second part runs the real get_faultlog() of a port gateway against the simulated controller (start/limit variations, null-entry replies).",
             "Equality is demanded only after a read-through with nothing changing meanwhile; RP null entries carry no index (documented), so feed-only read-throughs end at the last real entry; one recorded finding (gap-absorbing announcement, pinned by the repo's own test).",
